@@ -217,7 +217,22 @@ func init() { register("cut", &cutEngine{}) }
 
 func (e *cutEngine) leanName() string { return "read" }
 
-func (e *cutEngine) generate(r *rng, n int, tier string, emit func(string)) {
+// a first line that names the module is a COMMENT line, whatever follows the name on it
+var cutHeaders = []string{";; $MODULE a.lisp\n", ";; $MODULE notes (draft\n", ";; $MODULE my file (1).lisp\n", ";; $MODULE a [b\n", ";; $MODULE x )\n", ";; $MODULE m {:a\n",
+	";; $MODULE m \"q\n", ";; $MODULE m ] } )\n", ";; $MODULE  two  blanks (\n", ";; $MODULE m\t(tab\n", ";; $MODULE m ¬raw\n", ";; $MODULE m #{\n", ";; $MODULE m 'q `(~x\n", ";; $MODULE m ^{:a 1}\n",
+	";; $MODULE m (\r\n"}
+
+func (e *cutEngine) generate(r *rng, n int, tier string, emit0 func(string)) {
+	emit := func(p string) {
+		emit0(p)
+		if r.chance(1, 10) { // the same text below a module line
+			if i := strings.Index(p, " x"); i >= 0 {
+				if j := strings.Index(p, " | "); j > i {
+					emit0(p[:i+2] + hex.EncodeToString([]byte(r.pick(cutHeaders))) + p[i+2:])
+				}
+			}
+		}
+	}
 	closers := []cutTok{{")", "close"}, {"]", "close"}, {"}", "close"}}
 	for i := 0; i < n; i++ {
 		var toks []cutTok
@@ -263,6 +278,40 @@ func (e *cutEngine) generate(r *rng, n int, tier string, emit func(string)) {
 	}
 }
 
+// mbText: the text and the grammar checker's verdict of a megabyte case
+func mbText(kind string, n int) (string, string) {
+	comments := func() string { return strings.Repeat("; a comment line with ( and \" inside\n", n/40+1) }
+	switch kind {
+	case "flat":
+		return "(list " + strings.Repeat("1234567 ", n/8+1) + ")", "complete"
+	case "comment-closer":
+		return "(def a 1)\n" + comments() + ")", "surplus"
+	case "comment-second":
+		return "(def a 1)\n" + comments() + "(def b 2)", "two"
+	case "comment-open":
+		return "(def a 1\n" + comments(), "incomplete:)"
+	case "string":
+		return "(f \"" + strings.Repeat("s", n) + "\")", "complete"
+	case "raw":
+		return "[¬" + strings.Repeat("raw ( ", n/6+1) + "¬ 1]", "complete"
+	case "wrong-closer":
+		return "(do " + strings.Repeat("1 ", n/2+1) + "]", "malformed"
+	}
+	return "", ""
+}
+
+func (e *cutBigEngine) run(payload string) string {
+	if f := strings.Fields(payload); len(f) == 3 && f[0] == "mb" {
+		n, err := strconv.Atoi(f[2])
+		text, verdict := mbText(f[1], n)
+		if err != nil || n < 1 || n > 1<<27 || verdict == "" {
+			return "bad-case"
+		}
+		return e.cutEngine.runText(text, verdict)
+	}
+	return e.cutEngine.run(payload)
+}
+
 func (e *cutEngine) run(payload string) string {
 	parts := strings.Split(payload, " | ")
 	head := strings.Fields(parts[0])
@@ -270,9 +319,15 @@ func (e *cutEngine) run(payload string) string {
 	if err != nil || len(parts) != 2 {
 		return "bad-case"
 	}
-	v, rerr := reader.Read_str(string(bs), nil, nil)
+	return e.runText(string(bs), parts[1])
+}
+
+func (e *cutEngine) runText(text, expect string) string {
+	v, rerr := reader.Read_str(text, nil, nil)
 	obs := renderReadResult(v, rerr)
-	expect := parts[1]
+	if len(obs) > 4000 {
+		obs = obs[:4000] + "…"
+	}
 	viol := ""
 	switch {
 	case expect == "complete":
@@ -327,6 +382,16 @@ func (e *cutBigEngine) generate(r *rng, n int, tier string, emit func(string)) {
 		emitToks(toks)
 		for _, tail := range [][]cutTok{{{")", "close"}}, {{"]", "close"}}, {{"42", "atom"}}, {{"(", "open:)"}, {"x", "atom"}, {")", "close"}}, {{"(", "open:)"}, {"x", "atom"}}} {
 			emitToks(append(append([]cutTok{}, toks...), tail...))
+		}
+	}
+	// MEGABYTE texts (built by the run from the case's name): the decisive bracket lies beyond the first 1, 4, 16 MiB
+	sizes := []int{1<<20 - 64, 1<<20 + 64, 1<<20 + 200000, 5 << 20}
+	if tier == "thorough" {
+		sizes = append(sizes, 1<<24+64, 40<<20)
+	}
+	for _, n := range sizes {
+		for _, k := range []string{"flat", "comment-closer", "comment-second", "comment-open", "string", "wrong-closer", "raw"} {
+			emit("mb " + k + " " + strconv.Itoa(n))
 		}
 	}
 	// BIG incomplete texts (tens of kilobytes): the innermost open bracket is what the error names, whatever its kind
